@@ -202,6 +202,8 @@ def compare(expr, rnd, trials=3):
             if not (fin(a) and fin(b)): continue
             decided+=1
             if abs(a-b) > mp.mpf(10)**-10 * max(1,abs(a),abs(b)):
+                if abs(a-mp.conj(b)) <= mp.mpf(10)**-10 * max(1,abs(a),abs(b)):
+                    return ("inconclusive", "on a branch cut at the sample point (the 15-digit printing of a float decides the side)", s)
                 if ill_conditioned(sd, env, a):
                     return ("inconclusive", "ill-conditioned at the sample point (15-digit float printing decides)", s)
                 return ("viol", f"{mp.nstr(a,12)} vs {mp.nstr(b,12)} env={ {k:mp.nstr(v,6) for k,v in env.items()} }", s)
@@ -302,7 +304,9 @@ def compare_latex(expr, rnd, trials=3):
                     continue
                 decided += 1
                 if abs(a - b) > mp.mpf(10) ** -10 * max(1, abs(a), abs(b)):
-                    if ill_conditioned(sd, env, a):
+                    if abs(a - mp.conj(b)) <= mp.mpf(10) ** -10 * max(1, abs(a), abs(b)):
+                        v = ("inconclusive", "on a branch cut at the sample point (the 15-digit printing of a float decides the side)")
+                    elif ill_conditioned(sd, env, a):
                         v = ("inconclusive", "ill-conditioned at the sample point (15-digit float printing decides)")
                     else:
                         v = ("viol", f"{mp.nstr(a, 12)} vs {mp.nstr(b, 12)}")
@@ -357,6 +361,10 @@ def make_generator(rnd):
             e = rnd.choice([2, 3, -1, -2, Rational(1, 2), Rational(-1, 2), Rational(3, 2), Rational(1, 3), Rational(-2, 3), rnd.choice(syms), -rnd.choice(syms),
                             rnd.choice(syms) + 1, 1 / rnd.choice(syms), 1 / sqrt(rnd.choice(syms)), Rational(1, 4)])
             return gen(d - 1) ** e
+        if rnd.random() < 0.08:
+            # a power whose base is an exponential or another elementary function, with exponents of more than one token
+            base = rnd.choice([exp, sin, cos, sinh, tan])(gen(d - 1))
+            return base ** rnd.choice([Rational(3, 2), rnd.choice(syms), -rnd.choice(syms), 10, 12, rnd.choice(syms) + 1, Rational(1, 3), -2])
         if rnd.random() < 0.25:
             f = rnd.choice(funs)
             return f(gen(d - 1)) if rnd.random() < 0.7 else rnd.choice(funs2)(gen(d - 1), rnd.choice(syms))
